@@ -1,4 +1,4 @@
-(** Completeness for fragment F0: every valid trial sequence of the reference
+(** Completeness for fragment F1 (the key of a valid sequence; its acceptance is in Frag1Cons.v): every valid trial sequence of the reference
     semantics is the candidate of an in-range key (constructed with the rank
     functions of the C13 bijections).  Proof file. *)
 From Coq Require Import ZArith List Bool Arith Lia.
@@ -77,9 +77,39 @@ Proof.
   - apply IH. intros a b Ha Hb. apply Hinj; right; assumption.
 Qed.
 
+Fixpoint nindex (x : nat) (l : list nat) : nat :=
+  match l with
+  | [] => 0
+  | y :: t => if x =? y then 0 else S (nindex x t)
+  end.
+
+Lemma nindex_spec x l : In x l -> nindex x l < length l /\ nth (nindex x l) l 0 = x.
+Proof.
+  induction l as [|y t IH]; intros H; [destruct H|]. cbn [nindex].
+  destruct (x =? y) eqn:E.
+  - apply Nat.eqb_eq in E. subst. cbn. split; [lia | reflexivity].
+  - destruct H as [H | H]; [subst; rewrite Nat.eqb_refl in E; discriminate|].
+    destruct (IH H) as [H1 H2]. cbn. split; [lia | exact H2].
+Qed.
+
+Lemma alookup_combine_map (L : nat -> nat) (fs : list nat) f :
+  alookup (combine fs (map L fs)) f = if memb f fs then Some (L f) else None.
+Proof.
+  induction fs as [|g t IH]; [reflexivity|]. cbn [map combine memb existsb]. rewrite alookup_cons, IH.
+  rewrite (Nat.eqb_sym f g). destruct (g =? f) eqn:E; [apply Nat.eqb_eq in E; subst; reflexivity|]. reflexivity.
+Qed.
+
+Lemma count_level_zero l row t : count_level l row = 0 -> nth t row None <> Some l.
+Proof.
+  unfold count_level. revert t. induction row as [|x r IH]; intros t H; [destruct t; discriminate|].
+  cbn [filter] in H. destruct (cell_eqb x (Some l)) eqn:E; [discriminate|].
+  destruct t; cbn [nth]; [|apply IH; exact H].
+  intros Hx. subst x. cbn in E. rewrite Nat.eqb_refl in E. discriminate.
+Qed.
+
 Section F0C.
 Variable fb : flat.
-Hypothesis HF : frag0 fb = true.
+Hypothesis HF : frag1 fb = true.
 Hypothesis Hq : 0 < f0_q fb.
 
 Local Notation c := (the_crossing fb).
@@ -88,7 +118,7 @@ Local Notation q := (f0_q fb).
 Local Notation T := (fl_trials fb).
 Local Notation lo := (f0_leftover fb).
 Local Notation R := (f0_rounds fb).
-Local Notation prod := (Enum.product (map (all_levels fb) c)).
+Local Notation prod := (f0_cprod fb).
 Local Notation ubi := (f0_ubi fb).
 Local Notation S0 := (code_sem fb).
 
@@ -101,12 +131,14 @@ Hypothesis Hv : valid_b S0 s = true.
 (** * What validity says *)
 Lemma v_parts : length s = n /\
   (forall f fd, nth_error (s_factors S0) f = Some fd -> factor_ok S0 s f fd = true) /\
-  crossing_ok S0 s (f0_crossing fb) = true.
+  crossing_ok S0 s (f0_crossing fb) = true /\
+  forallb (constraint_ok S0 s) (s_constraints S0) = true.
 Proof.
-  unfold valid_b in Hv. rewrite (f0_sem_crossings fb HF), (f0_sem_constraints fb HF) in Hv.
+  unfold valid_b in Hv. rewrite (f0_sem_crossings fb HF) in Hv.
   cbn [forallb] in Hv. rewrite !andb_true_r in Hv.
-  apply andb_prop in Hv. destruct Hv as [Hv1 Hc]. apply andb_prop in Hv1. destruct Hv1 as [Hl Hf].
-  apply Nat.eqb_eq in Hl. rewrite (f0_sem_factors_length fb HF) in Hl. split; [exact Hl|]. split; [|exact Hc].
+  apply andb_prop in Hv. destruct Hv as [Hv0 Hk]. apply andb_prop in Hv0. destruct Hv0 as [Hv1 Hc].
+  apply andb_prop in Hv1. destruct Hv1 as [Hl Hf].
+  apply Nat.eqb_eq in Hl. rewrite (f0_sem_factors_length fb HF) in Hl. split; [exact Hl|]. split; [|split; [exact Hc | exact Hk]].
   intros f fd Hfd. rewrite forallb_forall in Hf. apply (Hf (f, fd)).
   unfold index_list. apply nth_error_In with (n := f).
   assert (Hlt : f < length (s_factors S0)) by (apply nth_error_Some; congruence).
@@ -121,7 +153,7 @@ Proof. apply v_parts. Qed.
 Lemma v_factor f : f < n -> length (nth f s []) = T /\
   forall t, t < T -> exists l, get_cell s f t = Some l /\ l < nlevels fb f.
 Proof.
-  intros Hf. destruct v_parts as (_ & Hfac & _).
+  intros Hf. destruct v_parts as (_ & Hfac & _ & _).
   assert (Hlt : f < length (s_factors S0)) by (rewrite (f0_sem_factors_length fb HF); exact Hf).
   destruct (nth_error (s_factors S0) f) as [fd|] eqn:E; [|apply nth_error_None in E; lia].
   specialize (Hfac f fd E). destruct (f0_sem_factor fb HF f fd E) as (_ & Hnl & Hsu & Hder).
@@ -167,11 +199,32 @@ Proof.
   - apply IH. intros y Hy. apply H. right. exact Hy.
 Qed.
 
+(** excluded levels do not occur *)
+Lemma v_exclude f l : In (FExclude f l) (fl_constraints fb) -> count_level l (nth f s []) = 0.
+Proof.
+  intros Hin. destruct v_parts as (_ & _ & _ & Hk). rewrite forallb_forall in Hk.
+  specialize (Hk (CodeSem.mk_c Sem.KExclude f l [])). apply Nat.eqb_eq. apply Hk.
+  rewrite (f0_sem_constraints fb HF). apply in_flat_map. exists (FExclude f l). split; [exact Hin | left; reflexivity].
+Qed.
+
+Lemma lvl_in_L g t : g < n -> t < T -> In (lvl g t) (f0_L fb g).
+Proof.
+  intros Hg Ht. apply (f0_L_spec fb HF). destruct (lvl_cell g t Hg Ht) as [Hc Hl]. split; [exact Hl|].
+  intros Hin. apply (count_level_zero _ _ t (v_exclude g _ Hin)). exact Hc.
+Qed.
+
 Lemma cs_in_prod t : t < T -> In (nth t cs []) prod.
 Proof.
-  intros Ht. rewrite cs_nth by exact Ht. apply product_In. apply Forall2_map_same.
-  intros f Hf. unfold all_levels. apply in_seq.
-  destruct (lvl_cell f t (f0_range fb (f0_unpack fb HF) f Hf) Ht) as [_ H]. lia.
+  intros Ht. rewrite cs_nth by exact Ht. apply (f0_cprod_spec fb HF). split.
+  - apply product_In. apply Forall2_map_same.
+    intros f Hf. unfold all_levels. apply in_seq.
+    destruct (lvl_cell f t (f0_range fb (f0_unpack fb HF) f Hf) Ht) as [_ H]. lia.
+  - apply not_true_is_false. intros E. apply (f0_excluded_spec fb HF) in E. destruct E as (f & l & Hk & Hl).
+    rewrite alookup_combine_map in Hl. destruct (memb f (the_crossing fb)) eqn:Em; [|discriminate].
+    inversion Hl as [Hl']. apply memb_In in Em.
+    assert (Hf : f < n) by (apply (f0_range fb (f0_unpack fb HF)); exact Em).
+    destruct (lvl_cell f t Hf Ht) as [Hc _].
+    apply (count_level_zero _ _ t (v_exclude f l Hk)). rewrite <- Hl'. exact Hc.
 Qed.
 
 (** * One round *)
@@ -190,12 +243,12 @@ Proof.
 Qed.
 
 Definition slice_perm (a tc : nat) : list Z := map (fun combo => Z.of_nat (index_of combo prod)) (slice a tc).
-Definition zlevels (g a tc : nat) : list Z := map (fun t' => Z.of_nat (lvl g (a + t'))) (seq 0 tc).
+Definition zlevels (g a tc : nat) : list Z := map (fun t' => Z.of_nat (nindex (lvl g (a + t')) (f0_L fb g))) (seq 0 tc).
 
 Definition round_comp (a tc : nat) : comp :=
   (perm_rank (Z.of_nat q) (slice_perm a tc),
    zeros (if tc =? q then q else tc),
-   map (fun g => comb_rank (Z.of_nat (nlevels fb g)) (zlevels g a tc)) ubi).
+   map (fun g => comb_rank (Z.of_nat (length (f0_L fb g))) (zlevels g a tc)) ubi).
 
 Lemma slice_perm_spec a tc : a + tc <= T -> NoDup (slice a tc) ->
   length (slice_perm a tc) = tc /\ injective_below (Z.of_nat q) (slice_perm a tc) /\
@@ -226,15 +279,15 @@ Proof.
   { unfold perm_of. rewrite Hcomp. reflexivity. }
   (* the independent factors *)
   assert (Hz : forall g, In g ubi ->
-            (0 <= comb_rank (Z.of_nat (nlevels fb g)) (zlevels g a tc) < Z.of_nat (nlevels fb g) ^ Z.of_nat tc)%Z /\
-            combo_of tc (nlevels fb g) (comb_rank (Z.of_nat (nlevels fb g)) (zlevels g a tc)) = zlevels g a tc).
+            (0 <= comb_rank (Z.of_nat (length (f0_L fb g))) (zlevels g a tc) < Z.of_nat (length (f0_L fb g)) ^ Z.of_nat tc)%Z /\
+            combo_of tc (length (f0_L fb g)) (comb_rank (Z.of_nat (length (f0_L fb g))) (zlevels g a tc)) = zlevels g a tc).
   { intros g Hg. assert (Hgn : g < n) by (apply (ubi_In fb HF Hq) in Hg; apply Hg).
     pose proof (f0_nonempty fb (f0_unpack fb HF) g Hgn) as Hnl.
-    destruct (RadixProofs.comb_bij tc (Z.of_nat (nlevels fb g)) ltac:(lia)) as [_ Hb2].
+    destruct (RadixProofs.comb_bij tc (Z.of_nat (length (f0_L fb g))) ltac:(lia)) as [_ Hb2].
     assert (Hlen : length (zlevels g a tc) = tc) by (unfold zlevels; rewrite map_length, seq_length; reflexivity).
-    assert (Hdig : Forall (fun d => (0 <= d < Z.of_nat (nlevels fb g))%Z) (zlevels g a tc)).
+    assert (Hdig : Forall (fun d => (0 <= d < Z.of_nat (length (f0_L fb g)))%Z) (zlevels g a tc)).
     { apply Forall_forall. intros d Hd. unfold zlevels in Hd. apply in_map_iff in Hd. destruct Hd as [t' [E Ht']].
-      apply in_seq in Ht'. subst d. destruct (lvl_cell g (a + t') Hgn ltac:(lia)) as [_ H]. lia. }
+      apply in_seq in Ht'. subst d. destruct (nindex_spec _ _ (lvl_in_L g (a + t') Hgn ltac:(lia))) as [H _]. lia. }
     destruct (Hb2 _ Hlen Hdig) as [Hr Hc]. split; [exact Hr|]. unfold combo_of. rewrite Hc. reflexivity. }
   assert (Hok : comp_ok fb tc (round_comp a tc)).
   { unfold round_comp, comp_ok. split; [exact Hrange|]. split; [reflexivity|].
@@ -253,24 +306,26 @@ Proof.
     rewrite (round_row_ind fb HF Hq tc _ j g Hle Hok Hj). unfold round_comp at 1. cbn [snd].
     assert (Hjl : j < length ubi) by (apply nth_error_Some; congruence).
     apply map_ext_in. intros t' Ht'. apply in_seq in Ht'. unfold ind_level.
-    set (F := fun g => comb_rank (Z.of_nat (nlevels fb g)) (zlevels g a tc)).
+    set (F := fun g => comb_rank (Z.of_nat (length (f0_L fb g))) (zlevels g a tc)).
     assert (Hnj : nth j (map F ubi) 0%Z = F g).
     { rewrite (nth_indep (map F ubi) 0%Z (F 0)) by (rewrite map_length; exact Hjl).
       rewrite (map_nth F). rewrite (nth_error_nth _ _ 0 Hj). reflexivity. }
     rewrite Hnj. rewrite (nth_error_nth _ _ 0 Hj). unfold F.
     destruct (Hz g Hgu) as [_ Hc]. rewrite Hc. unfold zlevels.
-    set (G := fun t' => Z.of_nat (lvl g (a + t'))).
+    set (G := fun t' => Z.of_nat (nindex (lvl g (a + t')) (f0_L fb g))).
     assert (Hnt : nth t' (map G (seq 0 tc)) 0%Z = G t').
     { rewrite (nth_indep (map G (seq 0 tc)) 0%Z (G 0)) by (rewrite map_length, seq_length; lia).
       rewrite (map_nth G). rewrite seq_nth by lia. reflexivity. }
-    rewrite Hnt. unfold G. rewrite Nat2Z.id.
-    symmetry. apply lvl_cell; [apply (ubi_In fb HF Hq) in Hgu; apply Hgu | lia].
+    rewrite Hnt. unfold G, lv_of. rewrite Nat2Z.id.
+    assert (Hgn : g < n) by (apply (ubi_In fb HF Hq) in Hgu; apply Hgu).
+    destruct (nindex_spec _ _ (lvl_in_L g (a + t') Hgn ltac:(lia))) as [_ E]. rewrite E.
+    symmetry. apply lvl_cell; [exact Hgn | lia].
 Qed.
 
 (** * The blocks are duplicate-free *)
 Lemma v_chunks : chunks_ok (S (s_trials S0)) S0 s (f0_crossing fb) 0 = true.
 Proof.
-  destruct v_parts as (_ & _ & Hc). unfold crossing_ok in Hc. apply andb_prop in Hc. apply Hc.
+  destruct v_parts as (_ & _ & Hc & _). unfold crossing_ok in Hc. apply andb_prop in Hc. apply Hc.
 Qed.
 
 Lemma block_nodup b : b mod q = 0 -> b < T -> NoDup (slice b (Nat.min q (T - b))).
